@@ -22,9 +22,11 @@ package webrtc
 //   always        => the immutable fields of GetConfiguration() are unchanged.
 
 import (
+	"bytes"
 	"crypto/ecdsa"
 	"crypto/elliptic"
 	"crypto/rand"
+	"crypto/x509"
 	"errors"
 	"fmt"
 	"reflect"
@@ -88,7 +90,14 @@ func c39CertsEqual(a, b []Certificate) bool {
 		return false
 	}
 	for i := range a {
-		if !a[i].Equals(b[i]) {
+		// judged on the bytes, not with Certificate.Equals (which SetConfiguration itself uses): the same
+		// X.509 certificate and the same private key
+		if a[i].x509Cert == nil || b[i].x509Cert == nil || !bytes.Equal(a[i].x509Cert.Raw, b[i].x509Cert.Raw) {
+			return false
+		}
+		ka, ea := x509.MarshalPKCS8PrivateKey(a[i].privateKey)
+		kb, eb := x509.MarshalPKCS8PrivateKey(b[i].privateKey)
+		if ea != nil || eb != nil || !bytes.Equal(ka, kb) {
 			return false
 		}
 	}
@@ -507,6 +516,20 @@ func c39Extras() []c39ExtraArg {
 
 			return Configuration{Certificates: cs}, true
 		}},
+		{"certs:renewed-over-the-same-key", func(_ *c39Env, cur c39Snap) (Configuration, bool) {
+			// another certificate (new serial, new validity) issued over the private key of the current one
+			if len(cur.Certs) == 0 {
+				return Configuration{}, false
+			}
+			cs := append([]Certificate{}, cur.Certs...)
+			r, err := GenerateCertificate(cs[len(cs)-1].privateKey)
+			if err != nil {
+				return Configuration{}, false
+			}
+			cs[len(cs)-1] = *r
+
+			return Configuration{Certificates: cs}, true
+		}},
 		{"certs:equal-copy-through-PEM", func(_ *c39Env, cur c39Snap) (Configuration, bool) {
 			var cs []Certificate
 			for _, x := range cur.Certs {
@@ -554,7 +577,7 @@ func TestVerifC39(t *testing.T) { //nolint:cyclop
 	defer c.Finish(t)
 	c.Rule("states = (stage in {fresh, after SetLocalDescription(offer), closed, have-remote-offer, have-local-pranswer, have-remote-pranswer, stable after a complete exchange}, GetConfiguration snapshot); transitions = SetConfiguration calls: from each of 4 initial configurations x 7 stages all 3^7 arguments (each of 7 fields in {zero, same as current, changed / invalid server list}), classes recomputed against the current snapshot before every call (mode walk: one PeerConnection per (initial, stage); mode fresh (thorough): a new PeerConnection per call), plus single-field sweeps over further shapes of change; distinct = (stage, set of must-reject reasons, error kind) rejected without change, and accepted calls by set of changed mutable fields")
 	c.Assume("a zero argument field on a non-zero setting is 'unspecified' in pion: the statement is read as silent on whether such a call is accepted, but the immutable setting must keep its value either way")
-	c.Assume("the statement does not demand that a call changing nothing is accepted; certificates are compared with Certificate.Equals, ICE servers structurally")
+	c.Assume("the statement does not demand that a call changing nothing is accepted; certificates are compared by their DER bytes and private keys, ICE servers structurally")
 
 	lf := logging.NewDefaultLoggerFactory()
 	lf.DefaultLogLevel = logging.LogLevelDisabled
